@@ -36,7 +36,6 @@ def good : Code where
   producerClosesSource := true
   producerClosesC := true
 
-theorem code_eq_good : code = good := by decide
 
 /-! The generated guards, over the model's natural-number state. -/
 theorem firstItemCond_nat (n : Nat) : (Gen.Batch.firstItemCond (n : Int) = true) ↔ n = 1 := by
